@@ -5,6 +5,7 @@ package tricky
 import (
 	"errors"
 	"fmt"
+	"io"
 	"sync"
 
 	"example.com/tricky/internal/sub"
@@ -112,6 +113,42 @@ func onces() string {
 	return fmt.Sprint("once", local(), table["once"], ";")
 }
 
+type acc struct{ n int }
+
+func (a *acc) add(wg *sync.WaitGroup, k int) { defer wg.Done(); a.n += k }
+
+func sumInto(wg *sync.WaitGroup, out *int, xs ...int) {
+	defer wg.Done()
+	for _, x := range xs {
+		*out += x
+	}
+}
+
+// goArgs exercises go statements whose function value and arguments are
+// evaluated at the statement, not when the goroutine starts.
+func goArgs() string {
+	var wg sync.WaitGroup
+	var r [4]int
+	chunk, out := []int{1, 2}, &r[0]
+	wg.Add(4)
+	go sumInto(&wg, out, chunk...)
+	chunk, out = []int{10, 20, 30}, &r[1]
+	go sumInto(&wg, out, chunk[0], chunk[1], chunk[2])
+	a, b := &acc{}, &acc{}
+	p := a
+	go p.add(&wg, 5) // method value bound to a
+	p = b
+	k := 7
+	go func(v int, w io.Writer) {
+		defer wg.Done()
+		r[2] = v
+		fmt.Fprint(w, "")
+	}(k, io.Discard)
+	k = 8
+	wg.Wait()
+	return fmt.Sprint("go", r[0], r[1], r[2], a.n, b.n, k, ";")
+}
+
 // ifInits exercises if statements with init clauses: the instrumenter puts a
 // yield between the init statement and the condition.
 func ifInits(n int) string {
@@ -152,7 +189,7 @@ lbl:
 
 // Run drives everything and returns a digest.
 func Run() string {
-	res := copies() + ifInits(0) + ifInits(1) + ifInits(2) + onces()
+	res := copies() + ifInits(0) + ifInits(1) + ifInits(2) + onces() + goArgs()
 outer:
 	for i := 0; i < 4; i++ {
 		for j := 0; j < 4; j++ {
